@@ -113,10 +113,18 @@ def run_case(case):
         t.run("add", "-A")
         t.run("commit", "-q", "-m", "init")
         nsteps = rng.randrange(8, 30)
+        big = prng.random() < 0.3
+        if big:
+            # a file whose `show` / `log -p` output exceeds a pipe buffer several times over
+            t.write_both("big.txt", "".join("%s %s\n" % (t.newline(), "x" * 60) for _ in range(6000)))
+            t.run("add", "-A"); t.run("commit", "-q", "-m", "big file")
         for step in range(nsteps):
             if t.diffs:
                 break
             r = rng.random()
+            if big and r < 0.12:
+                t.run_early_close(*rng.choice([("show", "HEAD:big.txt"), ("log", "-p", "--all"), ("cat-file", "-p", "HEAD:big.txt"), ("--no-pager", "log", "-p"), ("diff", "HEAD~1", "HEAD"), ("blame", "big.txt")]))
+                continue
             if r < 0.18:
                 t.edit(); continue
             if r < 0.28:
